@@ -4,6 +4,7 @@ import (
 	"bufio"
 	"fmt"
 	"io"
+	"os"
 	"os/exec"
 	"strconv"
 	"strings"
@@ -31,7 +32,7 @@ type Solver struct {
 
 type solverError struct{ msg string }
 
-func NewSolver(kind string, tb *TB, perQueryMs int) *Solver {
+func NewSolver(kind string, tb *TB, perQueryMs int, logic string) *Solver {
 	var cmd *exec.Cmd
 	switch kind {
 	case "z3", "z3-new":
@@ -51,7 +52,15 @@ func NewSolver(kind string, tb *TB, perQueryMs int) *Solver {
 		defined: map[int]bool{}, ufDecl: map[string]bool{}, tb: tb}
 	s.send("(set-option :print-success false)")
 	s.send("(set-option :produce-models true)")
-	s.send("(set-logic QF_UFBV)")
+	if logic == "" {
+		logic = "QF_BV"
+	}
+	if l := os.Getenv("GOSYM_LOGIC"); l != "" {
+		logic = l
+	}
+	if logic != "none" {
+		s.send("(set-logic " + logic + ")")
+	}
 	return s
 }
 
